@@ -38,7 +38,39 @@ func TestVerifC05Race(t *testing.T) {
 	defer out.close()
 
 	const racers = 8
+	nhosts, _ := strconv.Atoi(os.Getenv("VERIF_HOSTS"))
+	if nhosts == 0 {
+		nhosts = 3000
+	}
+	// VERIF_RECORD=1: the sequence of write-lock regions (install / removed hook events, which sit inside the regions)
+	// is recorded with the options each install was given, for the ownership view model/M5own.v
+	record := os.Getenv("VERIF_RECORD") == "1"
+	var recMu sync.Mutex
+	var regions []map[string]any
+	if record {
+		verifEventFn = func(kind string, args ...any) {
+			if kind != "install" && kind != "removed" {
+				return
+			}
+			sv, _ := args[0].(*Service)
+			if sv == nil {
+				return
+			}
+			recMu.Lock()
+			defer recMu.Unlock()
+			if kind == "install" {
+				regions = append(regions, map[string]any{"k": "install", "name": sv.name, "hosts": vToHex(sv.options.Hosts),
+					"prefixes": vToHex(sv.options.PathPrefixes), "ok": args[1].(bool)})
+			} else {
+				regions = append(regions, map[string]any{"k": "removed", "name": sv.name})
+			}
+		}
+		defer func() { verifEventFn = nil }()
+	}
 	for round := 0; round < rounds; round++ {
+		recMu.Lock()
+		regions = nil
+		recMu.Unlock()
 		dir := t.TempDir()
 		router := NewRouter(filepath.Join(dir, "state"))
 		var wg, ready sync.WaitGroup
@@ -50,8 +82,8 @@ func TestVerifC05Race(t *testing.T) {
 			go func(i int) {
 				defer wg.Done()
 				// many private bindings make the availability check long; the contested pair comes last
-				hosts := make([]string, 0, 3001)
-				for k := 0; k < 3000; k++ {
+				hosts := make([]string, 0, nhosts+1)
+				for k := 0; k < nhosts; k++ {
 					hosts = append(hosts, fmt.Sprintf("h%d-%d-%d.example.com", round, i, k))
 				}
 				hosts = append(hosts, "contested.example.com")
@@ -97,9 +129,67 @@ func TestVerifC05Race(t *testing.T) {
 				owners++
 			}
 		}
-		out.emit(map[string]any{"round": round, "results": results, "succeeded": ok, "owners_listed": owners})
+		// the winner is removed and the losers race again for the released pair (second wave), then everything is removed
+		winner := -1
+		for i, r := range results {
+			if r == "ok" {
+				winner = i
+			}
+		}
+		ok2 := -1
+		if record && winner >= 0 {
+			router.RemoveService(fmt.Sprintf("svc%d", winner))
+			var wg2 sync.WaitGroup
+			start2 := make(chan struct{})
+			res2 := make([]string, racers)
+			for i := 0; i < racers; i++ {
+				if i == winner {
+					continue
+				}
+				wg2.Add(1)
+				go func(i int) {
+					defer wg2.Done()
+					opts := ServiceOptions{Hosts: []string{fmt.Sprintf("p%d-%d.example.com", round, i), "contested.example.com"}, PathPrefixes: []string{"/", "/a"}}
+					topts := TargetOptions{HealthCheckConfig: HealthCheckConfig{Path: "/up", Interval: time.Second, Timeout: time.Second}, ResponseTimeout: time.Second}
+					service, err := router.findOrCreateService(fmt.Sprintf("svc%d", i), opts, topts)
+					if err != nil {
+						res2[i] = vErrName(err)
+						return
+					}
+					tl, _ := NewTargetList([]string{fmt.Sprintf("tgt%d:80", i)}, topts)
+					lb := NewLoadBalancer(tl)
+					if err := lb.WaitUntilHealthy(2 * time.Second); err != nil {
+						res2[i] = vErrName(err)
+						lb.Dispose()
+						return
+					}
+					service.UpdateLoadBalancer(lb, TargetSlotActive)
+					<-start2
+					err = router.installService(service)
+					if err != nil {
+						lb.Dispose()
+					}
+					res2[i] = vErrName(err)
+				}(i)
+			}
+			close(start2)
+			wg2.Wait()
+			ok2 = 0
+			for _, r := range res2 {
+				if r == "ok" {
+					ok2++
+				}
+			}
+		}
 		for i := 0; i < racers; i++ {
 			router.RemoveService(fmt.Sprintf("svc%d", i))
 		}
+		recMu.Lock()
+		row := map[string]any{"round": round, "results": results, "succeeded": ok, "owners_listed": owners, "second_wave_succeeded": ok2}
+		if record {
+			row["regions"] = regions
+		}
+		recMu.Unlock()
+		out.emit(row)
 	}
 }
